@@ -182,6 +182,10 @@ static void run_cmdline(const Case& c) {
   bool quoting = cmd.find_first_of("\"'\\") != std::string::npos;
   if ((quoting && expect.size() >= 2) || mixes(r)) ctx().nontrivial_case();
   ctx().cls(quoting ? "cmdline:quoted" : "cmdline:bare");
+  bool high = false, ctl = false;
+  for (unsigned char ch : cmd) high |= (ch >= 0x80), ctl |= (ch < 0x20 && ch != '\t') || ch == 0x7f;
+  if (high) ctx().cls("cmdline:has a byte >= 0x80");
+  if (ctl) ctx().cls("cmdline:has a control byte other than tab");
 }
 
 // ---------------------------------------------------------------- integers
@@ -295,6 +299,7 @@ static void run_int(const Case& c) {
     }
   });
   bool garbage = !m.complete;
+  if (m.complete && text.size() > 40) ctx().cls(text.size() > 64 ? "int:complete numeral longer than 64 characters (leading blanks / zeros)" : "int:complete numeral of 41..64 characters");
   if (garbage || near_boundary(m)) ctx().nontrivial_case();
   ctx().cls(ex.kind == c17::Expect::VALUE ? "int:expect-value" : ex.kind == c17::Expect::INVALID ? (garbage ? "int:expect-invalid(garbage)" : "int:expect-invalid(range)") : "int:expect-unsettled");
 }
@@ -847,12 +852,39 @@ static std::string gen_word(size_t maxlen, const std::string& alphabet) {
   return vg::bytes_from(alphabet, len);
 }
 
+// a word over every byte value except NUL: any byte, bytes >= 0x80 only, or well-formed UTF-8 (whose continuation bytes
+// 0x80..0xBF include 0x85 / 0x89 / 0xA0, the bytes that are NEL / tab / space once a bit is dropped or a Latin-1 table is consulted)
+static std::string gen_byte_word(size_t maxlen) {
+  static const std::vector<std::string> utf8 = {"\xc3\xa9", "\xc2\xa0", "\xc2\x85", "\xe2\x80\x89", "\xe3\x80\x80", "\xe6\x97\xa5", "\xe6\x9c\xac", "\xf0\x9f\x98\x80", "\xc4\x89", "\xd0\xa0",
+      "\xe2\x82\xac", "\xef\xbb\xbf", "\xc2\xa9", "\xe0\xa4\x89", "\xc3\xa0"};
+  size_t len = 1 + vg::scaled(maxlen - 1);
+  std::string w;
+  switch (vg::below(4)) {
+    case 0:
+      w = vg::bytes(len);
+      for (auto& ch : w)
+        if (ch == '\0') ch = static_cast<char>(0x80 | vg::below(128));
+      break;
+    case 1:
+      for (size_t i = 0; i < len; i++) w += static_cast<char>(0x80 | vg::below(128));
+      break;
+    case 2:
+      for (size_t i = 0; i < len; i++) w += vg::coin() ? vg::pick(utf8) : vg::bytes_from("ab1=-", 1);
+      break;
+    default:
+      for (size_t i = 0; i < len; i++) w += vg::coin() ? std::string(1, static_cast<char>(1 + vg::below(255))) : vg::bytes_from("ab1=- ", 1);
+      break;
+  }
+  return w;
+}
+
 // a token from a richer grammar than the enumerated alphabet (no NUL bytes)
 static std::string gen_token() {
   static const std::string name_chars = "abcxyzN_09-.";
   static const std::string value_chars = "abc019 =-\"'\\,./:\t";
-  switch (vg::below(10)) {
+  switch (vg::below(11)) {
     case 0: return vg::pick(kTokens);
+    case 10: return gen_byte_word(6);
     case 1: return "--" + gen_word(6, name_chars);
     case 2: return "--" + gen_word(6, name_chars) + "=" + (vg::coin() ? std::string() : gen_word(8, value_chars));
     case 3: return "--" + vg::pick<std::string>({"x", "y", "n", "name"}) + "=" + gen_word(6, value_chars);
@@ -874,6 +906,7 @@ static Case gen_classify() {
 }
 
 // quote one token for the command line, in the portable subset (token non-empty, no NUL)
+static const uint64_t kRawStyle = ~0ULL; // style_seed value (with random_style = false): the whole token in the raw style
 static std::string quote_token(const std::string& tok, uint64_t style_seed, bool random_style) {
   static const std::string safe = "abcdefghijklmnopqrstuvwxyzABCDEFGHIJKLMNOPQRSTUVWXYZ0123456789-_=./:,+@%^";
   std::string out;
@@ -885,7 +918,10 @@ static std::string quote_token(const std::string& tok, uint64_t style_seed, bool
     unsigned style;
     if (random_style) {
       seglen = 1 + vg::below(tok.size() - i);
-      style = vg::below(4);
+      style = vg::below(5);
+    } else if (style_seed == kRawStyle) {
+      seglen = tok.size() - i;
+      style = 4;
     } else {
       seglen = tok.size() - i;
       style = s % 4;
@@ -895,8 +931,14 @@ static std::string quote_token(const std::string& tok, uint64_t style_seed, bool
     i += seglen;
     bool has_sq = seg.find('\'') != std::string::npos, has_bs = seg.find('\\') != std::string::npos, has_nl = seg.find('\n') != std::string::npos;
     if (style == 1 && (has_sq || has_bs)) style = 2;
-    if ((style == 0 || style == 3) && has_nl) style = 2;
+    if ((style == 0 || style == 3 || style == 4) && has_nl) style = 2;
     switch (style) {
+      case 4: // raw: only what the shell itself treats specially is escaped; every other byte (controls, 0x80..0xFF) stands unquoted
+        for (char ch : seg) {
+          if (strchr(" \t\\\"'$&|;<>()*?[]#~{}!`\r", ch)) out += '\\';
+          out += ch;
+        }
+        break;
       case 0: // bare, escaping only what needs it
         for (char ch : seg) {
           if (safe.find(ch) == std::string::npos) out += '\\';
@@ -943,6 +985,9 @@ static Case gen_cmdline() {
     if (vg::chance(1, 4)) {
       // tokens with shell metacharacters, quotes, backslashes, blanks
       t = gen_word(8, "ab1 \t\"'\\$`*?;&|<>()#~!{}[]=-\n");
+    } else if (vg::chance(1, 3)) {
+      // tokens over all 255 non-NUL byte values (possibly as the name or the value of an option)
+      t = vg::pick<std::string>({"", "", "--", "--n=", "-", "--x"}) + gen_byte_word(8);
     } else {
       t = gen_token();
     }
@@ -987,7 +1032,11 @@ static std::string gen_numeral_text(uint64_t code, uint64_t f) {
     for (auto& ch : digits) ch = static_cast<char>(toupper(ch));
   std::string sign = vg::pick<std::string>({"", "", "", "-", "-", "+"});
   std::string lead = vg::pick<std::string>({"", "", "", "", " ", "\t", "  ", "\n", "\v\f\r"});
-  std::string text = lead + sign + prefix + (vg::chance(1, 8) ? std::string(vg::below(30), '0') : std::string()) + digits;
+  // a numeral stays a complete numeral however many blanks precede it and however many zeros precede its digits
+  if (vg::chance(1, 10)) lead = vg::coin() ? std::string(vg::below(201), vg::pick<char>({' ', '\t', '\n'})) : vg::bytes_from(" \t\n\v\f\r", vg::below(201));
+  std::string zeros;
+  if (vg::chance(1, 6)) zeros = std::string(vg::coin() ? vg::below(30) : vg::below(201), '0');
+  std::string text = lead + sign + prefix + zeros + digits;
   // garbage
   switch (vg::below(12)) {
     case 0: text += vg::pick<std::string>({" ", "x", ".", ".0", "e3", "L", "u", "h", ",", "-", "+", "_", "\t", "g", "8", "9"}); break;
@@ -1023,6 +1072,10 @@ static Case gen_float() {
     case 6: text = vg::pick<std::string>({"inf", "INF", "Infinity", "infinity", "nan", "NaN", "nan(1)", "nan(abc_9)", "0", "0.0", "-0", "1e308", "1e-308", "4.9e-324", "1.7976931348623157e308", "3.4028235e38", "16777217", "9007199254740993", "0.1", "1e23", "8.5e-1"}); break;
     default: text = digits(4) + "." + digits(4); break;
   }
+  // long runs of leading blanks / leading zeros leave a literal complete (and its value unchanged)
+  if (vg::chance(1, 12)) lead = vg::bytes_from(" \t\n\v\f\r", vg::below(201));
+  if (vg::chance(1, 12) && !text.empty() && (isdigit(static_cast<unsigned char>(text[0])) || text[0] == '.') && text.compare(0, 2, "0x") != 0 && text.compare(0, 2, "0X") != 0)
+    text = std::string(vg::below(201), '0') + text;
   text = lead + sign + text;
   switch (vg::below(10)) {
     case 0: text += vg::pick<std::string>({" ", "f", "F", "d", "x", "e", "e+", "e-", "p1", ".", "..", ",5", "L", "%", "_"}); break;
@@ -1156,7 +1209,23 @@ static void enum_cmdline(Enum& e) {
     }
     return true;
   });
-  e.complete(cat("all lists of <= ", maxlen, " non-empty tokens of the alphabet joined into one command line (quoting style per token chosen by index hash), and all lists of <= 3 tokens x every combination of the 4 quoting styles (bare, '...', \"...\", backslash per character)"));
+  // every byte value 1..255 at the start, in the middle and at the end of a word, of an option name and of an option value,
+  // standing unquoted (a backslash only in front of the bytes the shell treats specially; newline inside "...")
+  uint64_t idx3 = 0;
+  for (unsigned b = 1; b < 256 && !e.stop; b++) {
+    std::string B(1, static_cast<char>(b));
+    std::vector<std::vector<std::string>> lists = {{B}, {"a" + B + "c"}, {"x" + B, B + "y"}, {"--n=1" + B + "2"}, {"--n" + B + "m=1"}, {"pos", B + B, "--x"}, {"-a" + B}, {"--x=" + B, "p" + B}};
+    for (const auto& toks : lists) {
+      for (uint64_t sep = 0; sep < 2; sep++, idx3++) {
+        if (!e.mine(idx3)) continue;
+        std::vector<std::string> quoted;
+        for (const auto& t : toks) quoted.push_back(quote_token(t, kRawStyle, false));
+        e.exec(Case("cmdline").S(join_cmdline(quoted, sep ? (mix(idx3, 9) & 255) : 0)));
+      }
+    }
+  }
+  e.complete(cat("all lists of <= ", maxlen, " non-empty tokens of the alphabet joined into one command line (quoting style per token chosen by index hash), all lists of <= 3 tokens x every combination of the 4 quoting styles (bare, '...', \"...\", backslash per character), "
+                 "and every byte value 1..255 unquoted at the start / in the middle / at the end of a word, an option name and an option value (8 token lists x 2 separator styles)"));
 }
 
 static uint64_t pick_mode(uint64_t h, const std::string& text) {
@@ -1236,6 +1305,41 @@ static void enum_int_edge(Enum& e) {
       }
     }
   }
+  // padded numerals: every run length 0..200 of leading zeros (after sign and prefix) and of leading blanks (before the sign), around small
+  // values, 0 itself and the top of each width; the value does not change, so "fits" does not either
+  {
+    static const u128 pvals[] = {0, 1, 7, 93, 127, 128, 255, 256, 65535, 65536, 0x7FFFFFFFULL, 0xFFFFFFFFULL, (static_cast<u128>(1) << 63) - 1};
+    static const char* blanks[] = {" ", "\t", "\n", " \t\n\v\f\r"};
+    uint64_t pidx = 0;
+    for (size_t run = 0; run <= 200 && !e.stop; run++) {
+      for (int kind = 0; kind < 6; kind++, pidx++) { // 0: zeros, 1..4: blanks of one sort / mixed, 5: blanks and zeros (half each)
+        if (!e.mine(pidx)) continue;
+        std::string lead, zeros;
+        if (kind == 0) zeros.assign(run, '0');
+        else if (kind == 5) {
+          lead.assign(run / 2, ' ');
+          zeros.assign(run - run / 2, '0');
+        } else {
+          const char* b = blanks[kind - 1];
+          size_t bl = strlen(b);
+          for (size_t i = 0; i < run; i++) lead += b[i % bl];
+        }
+        for (size_t vi = 0; vi < sizeof(pvals) / sizeof(pvals[0]); vi++) {
+          for (int r = 0; r < 4; r++) {
+            uint64_t h = mix(pidx * 64 + vi * 4 + static_cast<uint64_t>(r), 0x9AD);
+            const char* sign = signs[h % 3];
+            std::string text = lead + sign + (r == 1 ? "0x" : "") + zeros + (r == 2 && zeros.empty() ? "0" : "") + c17::render(pvals[vi], r == 0 ? 10 : r == 2 ? 8 : 16);
+            // two (type, format) pairs per text, rotating: the format that reads this rendering, and any
+            uint64_t code = (h >> 8) % 8, code2 = (h >> 16) % 8;
+            uint64_t f_match = r == 0 ? ((h >> 24) & 1 ? 2 : 0) : r == 2 ? ((h >> 24) & 1 ? 3 : 0) : r == 1 ? ((h >> 24) & 1 ? 1 : 0) : 1;
+            if (r == 0 && !zeros.empty()) f_match = 2; // zero-padded decimal digits are decimal only under DECIMAL
+            e.exec(Case("int_edge").N(code).N(f_match).N(pick_mode(h >> 28, text)).S(text));
+            e.exec(Case("int_edge").N(code2).N((h >> 40) % 4).N(pick_mode(h >> 44, text)).S(text));
+          }
+        }
+      }
+    }
+  }
   // short strings over an adversarial alphabet
   size_t maxlen = e.thorough() ? 5 : 3;
   uint64_t sidx = 0;
@@ -1250,7 +1354,8 @@ static void enum_int_edge(Enum& e) {
     return true;
   });
   e.complete(cat(mags.size(), " boundary magnitudes (2^k+-2 for k in 7,8,15,16,31,32,63,64; 2^64-2^k+-2; beyond 2^64) x {no sign,-,+} x 5 renderings x ", decos.size(),
-      " blank/garbage decorations x 8 types x 4 formats; every string of length <= ", maxlen, " over {space,+,-,0,1,8,f,x,e,.} x 8 types x 4 formats"));
+      " blank/garbage decorations x 8 types x 4 formats; 13 values (0, 1, 7, 93, tops of the widths) x 4 renderings behind every run of 0..200 leading zeros / leading blanks (space, tab, newline, mixed) / both "
+      "(sign, type, format and getter form rotating by hash; one of the two formats is the one that reads the rendering); every string of length <= ", maxlen, " over {space,+,-,0,1,8,f,x,e,.} x 8 types x 4 formats"));
 }
 
 static void enum_float(Enum& e) {
